@@ -636,7 +636,7 @@ class NetlistOpsMixin:
 
         See also twoport, Aparams, Bparams, Gparams, Hparams, Sparams, Yparams, and Zparams.
         """
-        return self.Tparams(N1p, N1m, N2p, N2m).Hparams
+        return self.Aparams(N1p, N1m, N2p, N2m).Tparams
 
     def Yparams(self, N1p, N1m, N2p=None, N2m=None):
         """Create Y-parameters for two-port defined by nodes N1p, N1m, N2p, and N2m, where:
